@@ -106,6 +106,9 @@ fn generate_g(seed: u64, _quick: bool) -> Value {
             if rng.chance(1, 3) {
                 prefix.push(json!({"t": "(import (iso missing))", "k": "lib-import-failing"}));
             }
+            if rng.chance(1, 2) {
+                prefix.push(json!({"t": "(import (shared ctr))", "k": "lib-import"}));
+            }
         }
         for f in sub["forms"].as_array().cloned().unwrap_or_default() {
             let k = f["k"].as_str().unwrap_or("");
@@ -129,6 +132,8 @@ fn generate_g(seed: u64, _quick: bool) -> Value {
                     "(iso-file-bumped 1)",
                     "(define (iso-bump x) (+ x 100))",
                     "(iso-bump 1)",
+                    "(shared-next!)",
+                    "(shared-next!)",
                 ]);
                 forms.insert(at, json!({"t": t, "k": "lib-use"}));
             }
@@ -319,8 +324,17 @@ fn execute_g(case: &Value) -> RunResult {
     let root = crate::sandbox::fresh_dir("iso");
     let whos: Vec<String> = progs.as_object().map(|o| o.keys().cloned().collect()).unwrap_or_default();
     let dirs: BTreeMap<String, PathBuf> = whos.iter().map(|w| (w.to_string(), root.join(w))).collect();
+    // one library FILE that every instance reaches through its own program directory (a
+    // symlinked sub-directory): the same file, but an instance of its own per interpreter
+    let shared = root.join("shared-src");
+    let _ = std::fs::create_dir_all(&shared);
+    let _ = std::fs::write(
+        shared.join("ctr.sld"),
+        "(define-library (shared ctr) (import (scheme base)) (export shared-next!) (begin (define n 0) (define (shared-next!) (set! n (+ n 1)) n)))\n",
+    );
     for w in &whos {
         write_file_lib(&dirs[w], progs[w]["file_text"].as_str().unwrap_or(""));
+        let _ = std::os::unix::fs::symlink(&shared, dirs[w].join("shared"));
     }
     // solo reference runs, each on its own fresh thread
     let mut solo_results: BTreeMap<String, Vec<String>> = BTreeMap::new();
